@@ -374,6 +374,38 @@ def rule_u10(repo):
     need(n_sites, 'type_infer.union: no `reach[..].update(..)` found')
     return res
 
+def rule_u11(repo):
+    """`union(T1, T2)` re-points the members of the class whose *representative* is T1: it looks for `uf[k] == T1`.  Handed a type variable
+    that is no longer the representative of its class (it was merged while something else was inferred) it finds no member, does
+    nothing, and the constraint is dropped without a clash or an occurs check - f (f x) is then accepted.  `unify` looks the
+    representatives up first; so `union` is called from `unify` only (who-may-call), with arguments `unify` has resolved."""
+    res = RuleResult('C08.U11', 'classes of type variables are joined only through unify, which resolves representatives first', floor=1)
+    top = repo.func(INFER, 'type_infer')
+    need('union' in top.nested and 'unify' in top.nested, 'type_infer: nested union / unify not found')
+    outside = []
+    n_calls = 0
+    for name, g in top.nested.items():
+        for c in ast.walk(g.node):
+            if isinstance(c, ast.Call) and is_name(c.func, 'union'):
+                n_calls += 1
+                if name != 'unify':
+                    outside.append((name, c))
+    for c in walk_no_nested(top.node):
+        if isinstance(c, ast.Call) and is_name(c.func, 'union'):
+            n_calls += 1
+            outside.append(('type_infer', c))
+    need(n_calls, 'type_infer: union is never called')
+    # inside unify: the representatives are looked up (uf[..]) before any call of union
+    u = top.nested['unify']
+    cfg = cfg_of(u.node)
+    looks = [n for n in cfg.nodes if n.kind == 'stmt' and isinstance(n.ast, ast.Assign) and isinstance(n.ast.value, ast.Subscript) and is_name(n.ast.value.value, 'uf')]
+    res.add('%s :: type_infer :: union-called-from-unify-only' % INFER, not outside and bool(looks),
+            '%d call(s), all inside unify, which reads the representatives from uf first' % n_calls if not outside and looks else
+            ('line %d: `%s` is called from %s: the type variable it is handed need not be the representative of its class any more, union then joins nothing and '
+             'the constraint is lost - f (f x) gets a type' % (outside[0][1].lineno, src(outside[0][1], 50), outside[0][0]) if outside else
+             'unify no longer looks the representatives up before joining'), '%s:%d' % (INFER, (outside[0][1] if outside else u.node).lineno))
+    return res
+
 
 def rules(repo):
-    return [rule_u1(repo), rule_u2(repo), rule_u3(repo), rule_u4(repo), rule_u5(repo), rule_u6(repo), rule_u7(repo), rule_u8(repo), rule_u9(repo), rule_u10(repo)]
+    return [rule_u1(repo), rule_u2(repo), rule_u3(repo), rule_u4(repo), rule_u5(repo), rule_u6(repo), rule_u7(repo), rule_u8(repo), rule_u9(repo), rule_u10(repo), rule_u11(repo)]
